@@ -24,7 +24,7 @@ fn rel_path(rng: &mut Rng) -> String {
 
 fn spell(rng: &mut Rng, root: &Path, p: &str) -> String {
     match rng.below(40) {
-        0..=7 => format!("{}/{}", root.to_string_lossy(), p),
+        0..=3 => format!("{}/{}", root.to_string_lossy(), p),
         11..=14 => format!("./{p}"),
         4 => p.replace('/', "//"),
         5 => format!("../{p}"),
@@ -226,6 +226,15 @@ fn auto_checkpoint_cases(rep: &mut Report, rng: &mut Rng, n: u64) {
         register_builtin_tools(&registry, BuiltinToolConfig { workspace_root: root.clone(), ..BuiltinToolConfig::default() });
         let hook = ripd::verif_export::WorkspaceCheckpointHook::new(root.clone()).unwrap();
         let runner = ToolRunner::with_checkpoint_hook(registry, 2, Arc::new(hook));
+        // one case in three: an earlier automatic checkpoint of the same session failed half-way (the
+        // write names an existing directory: the checkpoint directory exists, its manifest does not)
+        let mut seq = 0u64;
+        if rng.chance(1, 3) {
+            let d = format!("existing-dir-{i}");
+            std::fs::create_dir_all(root.join(&d)).unwrap();
+            let _ = rt.block_on(runner.run("s", &mut seq, ToolInvocation { name: "write".into(), args: json!({"path": d, "content": "x"}), timeout_ms: None }));
+            rep.count("auto_checkpoint_cases_after_a_failed_checkpoint");
+        }
         let (before, _) = list_tree(&root);
         let inv = if rng.chance(1, 2) || ws.patch.is_empty() {
             let p = if !ws.files.is_empty() && rng.chance(2, 3) { rng.pick(&ws.files).0.clone() } else { rel_path(rng) };
@@ -238,7 +247,6 @@ fn auto_checkpoint_cases(rep: &mut Report, rng: &mut Rng, n: u64) {
             ToolInvocation { name: "apply_patch".into(), args: json!({"patch": ws.patch}), timeout_ms: None }
         };
         let case = json!({"tool": inv.name, "args": inv.args, "files": ws.files.iter().map(|f| f.0.clone()).collect::<Vec<_>>(), "dirs": ws.dirs, "cwd": if cwd_root {"root"} else {"elsewhere"}});
-        let mut seq = 0u64;
         let events = rt.block_on(runner.run("s", &mut seq, inv));
         rep.evaluations += 1;
         let started_at = events.iter().position(|e| matches!(e.kind, EventKind::ToolStarted { .. }));
@@ -262,7 +270,11 @@ fn auto_checkpoint_cases(rep: &mut Report, rng: &mut Rng, n: u64) {
                     rep.oracle_failure("C14|auto-checkpoint-does-not-undo", &format!("rewinding the automatic checkpoint does not restore {diff:?}"), case.clone());
                 }
                 if !ok && changed {
-                    rep.count("auto_rewind_failed_after_change");
+                    // "an edit can always be undone": the checkpoint was taken, nothing else touched the workspace
+                    let why = ev.iter().find_map(|e| match &e.kind { EventKind::CheckpointFailed { error, .. } => Some(error.clone()), _ => None }).unwrap_or_default();
+                    // the class of the refusal is part of the signature: one class is a recorded finding
+                    let class = if why.contains("Is a directory") || why.contains("Not a directory") || why.contains("File exists") || why.contains("Directory not empty") { "path-changed-between-file-and-directory" } else { "other" };
+                    rep.oracle_failure(&format!("C14|auto-checkpoint-cannot-be-rewound|{class}"), &format!("the tool changed files after its automatic checkpoint {id} and the rewind to it is refused: {why}"), case.clone());
                 }
                 rep.count("auto_checkpoint_taken");
             }
